@@ -126,58 +126,71 @@ func main() {
 		ty := gen.F44Types[i%len(gen.F44Types)]
 		r := c.Rand("c02-fix44", int64(i))
 		m := ty.New()
-		exp, _ := gen.PopulateLib(r, m, o, true)
-		wire, err, pan := gen.Serialize(m)
-		if err != nil || pan != "" {
-			return
+		// every third object is used twice: populated, serialized and parsed, then populated again (values set in
+		// place, entries added to the groups it already has) and serialized and parsed again
+		uses := 1
+		if i%3 == 0 {
+			uses = 2
 		}
-		var d []string
-		hasGroup := false
-		for _, e := range exp {
-			d = append(d, e.Path+":"+e.String())
-			if e.Val == nil {
-				hasGroup = true
+		for use := 1; use <= uses; use++ {
+			second := ""
+			if use == 2 {
+				second = "second-use/"
+				c.Count("objects_populated_and_serialized_twice", 1)
 			}
-		}
-		replay := map[string]interface{}{"generator": "fix44/" + ty.Name, "index": i, "seed": c.Seed, "population": vk.Trunc(strings.Join(d, " | "), 1500), "wire": vk.Trunc(fixref.Pretty(wire), 1500)}
-		c.Eval(vk.Hash64([]byte(ty.Name), wire), hasGroup || len(exp) >= 3)
-		c.SetAdd("fix44_types", ty.Name)
-		for _, strict := range []bool{true, false} {
-			mode := "strict"
-			if !strict {
-				mode = "non-strict"
+			exp, _ := gen.PopulateLib(r, m, o, true)
+			wire, err, pan := gen.Serialize(m)
+			if err != nil || pan != "" {
+				return
 			}
-			into := ty.New()
-			perr, ppan := parse(strict, into, wire)
-			if ppan != "" {
-				c.Violate("C02/parse-panic/"+errClass(ppan), mode+": "+ty.Name+": parsing the library's own output panicked: "+ppan, replay)
-				continue
-			}
-			if perr != nil {
-				c.Violate("C02/parse-error/"+errClass(perr.Error()), mode+": "+ty.Name+": parsing the library's own output failed: "+perr.Error(), replay)
-				continue
-			}
-			var diffs []string
-			gen.CompareTrees(m.Header().Items(), into.Header().Items(), "header", &diffs)
-			gen.CompareTrees(m.Body(), into.Body(), "body", &diffs)
-			gen.CompareTrees(m.Trailer().Items(), into.Trailer().Items(), "trailer", &diffs)
-			for _, df := range diffs {
-				cls := "value-changed"
-				switch {
-				case strings.Contains(df, "value type"):
-					cls = "type-lost"
-				case strings.Contains(df, "entries in the original"):
-					cls = "entry-count"
-				case strings.Contains(df, "populated="):
-					cls = "lost-or-phantom-value"
+			var d []string
+			hasGroup := false
+			for _, e := range exp {
+				d = append(d, e.Path+":"+e.String())
+				if e.Val == nil {
+					hasGroup = true
 				}
-				c.Violate("C02/fix44/"+cls, mode+": "+ty.Name+": "+df, replay)
 			}
-			re, rerr, rpan := gen.Serialize(into)
-			if rpan != "" || rerr != nil {
-				c.Violate("C02/reserialize-failed", fmt.Sprintf("%s: %s: re-serializing failed: %v %s", mode, ty.Name, rerr, rpan), replay)
-			} else if !bytes.Equal(re, wire) && len(diffs) == 0 {
-				c.Violate("C02/reserialized-bytes-differ", mode+": "+ty.Name+": re-serialized bytes differ: "+vk.Trunc(fixref.Pretty(re), 600), replay)
+			replay := map[string]interface{}{"generator": "fix44/" + ty.Name, "index": i, "seed": c.Seed, "population": vk.Trunc(strings.Join(d, " | "), 1500), "wire": vk.Trunc(fixref.Pretty(wire), 1500)}
+			c.Eval(vk.Hash64([]byte(ty.Name), wire), hasGroup || len(exp) >= 3)
+			c.SetAdd("fix44_types", ty.Name)
+			for _, strict := range []bool{true, false} {
+				mode := "strict"
+				if !strict {
+					mode = "non-strict"
+				}
+				into := ty.New()
+				perr, ppan := parse(strict, into, wire)
+				if ppan != "" {
+					c.Violate("C02/parse-panic/"+errClass(ppan), mode+": "+ty.Name+": parsing the library's own output panicked: "+ppan, replay)
+					continue
+				}
+				if perr != nil {
+					c.Violate("C02/parse-error/"+errClass(perr.Error()), mode+": "+ty.Name+": parsing the library's own output failed: "+perr.Error(), replay)
+					continue
+				}
+				var diffs []string
+				gen.CompareTrees(m.Header().Items(), into.Header().Items(), "header", &diffs)
+				gen.CompareTrees(m.Body(), into.Body(), "body", &diffs)
+				gen.CompareTrees(m.Trailer().Items(), into.Trailer().Items(), "trailer", &diffs)
+				for _, df := range diffs {
+					cls := "value-changed"
+					switch {
+					case strings.Contains(df, "value type"):
+						cls = "type-lost"
+					case strings.Contains(df, "entries in the original"):
+						cls = "entry-count"
+					case strings.Contains(df, "populated="):
+						cls = "lost-or-phantom-value"
+					}
+					c.Violate("C02/fix44/"+second+cls, mode+": "+ty.Name+": "+df, replay)
+				}
+				re, rerr, rpan := gen.Serialize(into)
+				if rpan != "" || rerr != nil {
+					c.Violate("C02/reserialize-failed", fmt.Sprintf("%s: %s: re-serializing failed: %v %s", mode, ty.Name, rerr, rpan), replay)
+				} else if !bytes.Equal(re, wire) && len(diffs) == 0 {
+					c.Violate("C02/reserialized-bytes-differ", mode+": "+ty.Name+": re-serialized bytes differ: "+vk.Trunc(fixref.Pretty(re), 600), replay)
+				}
 			}
 		}
 	})
